@@ -199,7 +199,7 @@ def parseRe : Nat → List Str → Option (Re × List Str)
     | ['g'] => (parseRe fuel ts).map (fun (r, ts) => (.group r, ts))
     | ['n'] => (parseRe fuel ts).map (fun (r, ts) => (.nla r, ts))
     | ['s'] => (parseRe fuel ts).bind (fun (a, ts) => (parseRe fuel ts).map (fun (b, ts) => (.seq a b, ts)))
-    | ['|'] => (parseRe fuel ts).bind (fun (a, ts) => (parseRe fuel ts).map (fun (b, ts) => (.alt a b, ts)))
+    | ['v'] => (parseRe fuel ts).bind (fun (a, ts) => (parseRe fuel ts).map (fun (b, ts) => (.alt a b, ts)))
     | _ => none
 
 end P2P.FF
